@@ -12,7 +12,7 @@ from .common import make_measure, make_factor, FACTOR_KINDS
 from .c03 import table_keys
 
 MEASURE_KINDS = ["cold", "warm", "diag", "pdf", "diagpdf"]
-KIND_CLASS = {"cold": "GaussianMeasure", "warm": "GaussianMeasure", "diag": "GaussianDiagMeasure", "pdf": "GaussianPDF", "diagpdf": "GaussianDiagPDF"}
+KIND_CLASS = {"cold": "GaussianMeasure", "warm": "GaussianMeasure", "diag": "GaussianDiagMeasure", "diagwarm": "GaussianDiagMeasure", "pdf": "GaussianPDF", "diagpdf": "GaussianDiagPDF"}
 
 
 def _std_kwargs(key, R, Dd):
@@ -55,10 +55,11 @@ def api_list(prog):
         out.append(("slice", kind, "R", unary(kind, "slice", lambda: ([build.indices("idx", sym("Rn"))], {}), False)))
         out.append(("product", kind, "R", unary(kind, "product", lambda: ([], {}), False)))
     keys = [k for k in table_keys(prog) if k not in ("log u(x)",)]
-    for mk in ("warm", "diag"):
-        # slicing a measure whose caches are populated (the cached arrays must be gathered with the same indices)
-        out.append(("slice", mk, "R/cached" if mk == "warm" else "R", unary(mk, "slice", lambda: ([build.indices("idx", sym("Rn"))], {}), True)))
-        out.append(("product", mk, "R/cached" if mk == "warm" else "R", unary(mk, "product", lambda: ([], {}), True)))
+    for mk in ("warm", "diag", "diagwarm"):
+        # slicing a measure whose caches are populated (the cached arrays must be gathered with the same indices); "diagwarm" was added after
+        # the mutation sweep (Sigma gathered from Lambda in GaussianDiagMeasure.slice was reported by no check)
+        out.append(("slice", mk, "R/cached" if mk != "diag" else "R", unary(mk, "slice", lambda: ([build.indices("idx", sym("Rn"))], {}), True)))
+        out.append(("product", mk, "R/cached" if mk != "diag" else "R", unary(mk, "product", lambda: ([], {}), True)))
     for mk in MEASURE_KINDS:
         for k in keys:
             out.append((f"integrate[{k}]", mk, "R", unary(mk, "integrate", (lambda k=k: ([k], _std_kwargs(k, R, Dd) if k != "1" else {})), True)))
